@@ -90,6 +90,7 @@ ChXPast  == Two({H1e}, {PastFlood})
 ChXCommit == Two({H1e}, {BadCommit})
 ChXFin   == Two({H1e}, {BadFin})
 ChXHon   == Two({H1e}, {H2b})
+ChXOne   == [s \in {1} |-> {H1e}]
 MCBad == {3}
 (* behaviour generation: three streams with pairwise different ids (honest ids are (height, round)) *)
 MCStreams3 == {1, 2, 3}
